@@ -102,6 +102,16 @@ impl SpanLine {
     }
 
     #[inline]
+    pub fn is_sampled(&self) -> bool {
+        self.is_sampled
+    }
+
+    #[inline]
+    pub fn is_recording(&self, handle: &LocalSpanHandle) -> bool {
+        self.is_sampled && self.epoch == handle.span_line_epoch
+    }
+
+    #[inline]
     pub fn current_collect_token(&self) -> Option<CollectToken> {
         self.collect_token.as_ref().map(|collect_token| {
             collect_token
